@@ -363,3 +363,5 @@ MUTANTS = [
             offset = self._nlen_size""", """            nlen = bytearray(pack(lfmt, 0))
             offset = self._nlen_size""", 'C02-R5'),
 ]
+
+EXPLANATION += ' Round 5: memory image flush folded (what was stored reaches the tag); the folded Type 3 writer commits Ln only after every block was written (block numbers above 255 included).'
